@@ -177,7 +177,7 @@ def _havoc_data(ctx):
 
 
 _PROCESS_LOOP = LoopContract(lambda ctx: [("threshold-unchanged", ctx.interp.to_term(ctx.ghost["buffer"].fields["max_buffer_size_before_frontal_cleanup"]) == ctx.ghost["threshold_t"])],
-                             _havoc_data, props="C11", label="process",
+                             _havoc_data, props="C11,C08", label="process",
                              allowed=lambda w: w[0] in ("field", "stringio"),
                              variant=lambda ctx: z3.Length(cur_data(ctx.interp, ctx.ghost["buffer"])))
 
@@ -246,7 +246,7 @@ def task_process():
         try:
             I.call(IBound(f, b), [cb], {})
         except IRaise as e:
-            run.fail("C11|process/raises-nothing-of-its-own", "process raised %s" % e)
+            run.fail("C11,C08|process/raises-nothing-of-its-own", "process raised %s" % e)
             return
         run.cover("cover[process]/post")
         d1 = cur_data(I, b)
